@@ -32,3 +32,162 @@ def contracts():
                  params={"module": md, "index": "int", "key": "K", "value": "V"},
                  requires=req, exits=[Exit("return", post=post)], props=("C13", "C12", "C01"))
     return [c]
+
+
+# ------------------------------------------------------------------------------------------------
+# T_enc: quoting decision, string rendering and value dispatch of the encoders (C17, C01, C12)
+
+def quoting_contracts():
+    from ..pyvc.core import LoopSpec, Z, Conc, ObjV
+    from ..pyvc.objtheory import sval, S, strlen, strcat, lit, casefold
+    from ..pyvc.lextheory import set_has, sub_in, tid
+    from ..pyvc import enctheory as T
+    from ..pyvc.enctheory import (anychar_in, cf_in, sub_any, tok_pred, pred_id, CONFIGURED, ident_ok, printable,
+                                  str_of, type_is, type_id, gconst)
+    E = "pvl.encoder."
+    WS, RK, FE = tid("g.whitespace"), tid("g.reserved_keywords"), tid("g.format_effectors")
+    q1, q2 = gconst("quote1"), gconst("quote2")
+    APOS = lit("'")
+    WIDTH = z3.Const("self_width", z3.IntSort())
+    SSQ = z3.Const("self_symbol_single_quote", z3.BoolSort())
+
+    def text(v):
+        if isinstance(v, ObjV) and v.role == "pyval":
+            return str_of(v.info["id"])
+        return sval(v)
+
+    def kw(s):
+        c = casefold(s)
+        return z3.Or(c == casefold(gconst("none_keyword")), c == casefold(gconst("true_keyword")),
+                     c == casefold(gconst("false_keyword")), cf_in(RK, c))
+
+    def nq_pvl(s):
+        """the statement's quoting rule: a string is written bare only if it reads back as the same string -
+        not empty, no white space, not a keyword in any letter case, and an unquoted string for the
+        encoder's own grammar and decoder"""
+        return z3.Or(s == lit(""), anychar_in(WS, s), kw(s),
+                     z3.Not(tok_pred(pred_id("is_unquoted_string"), CONFIGURED, s)))
+
+    def nq(cls, s):
+        if cls in ("ODLEncoder", "PDSLabelEncoder"):
+            return z3.Or(z3.Not(ident_ok(s)), nq_pvl(s))
+        return nq_pvl(s)
+
+    def sym(s):
+        return z3.And(z3.Not(sub_in(APOS, s)), z3.Not(sub_any(FE, s)),
+                      z3.Not(z3.ToReal(strlen(s)) > z3.ToReal(WIDTH) / 2), printable(s), strlen(s) > 0)
+
+    def quoted_with(s, q):
+        return strcat(strcat(q, s), q)
+
+    def pvl_string_post(cls):
+        def post(pre, post_, a, r):
+            s = text(a["value"])
+            n = nq(a["self"].cls if "self" in a and a["self"].cls else cls, s)
+            return [("a string that does not need quotes is written as it is", z3.Implies(z3.Not(n), r.t == s)),
+                    ("else it is enclosed in the first quote character it does not contain",
+                     z3.Implies(n, z3.If(z3.Not(sub_in(q1, s)), r.t == quoted_with(s, q1), r.t == quoted_with(s, q2))))]
+        return post
+
+    def pvl_string_raises(pre, a):
+        s = text(a["value"])
+        return z3.And(nq(a["self"].cls, s), sub_in(q1, s), sub_in(q2, s))
+
+    out = []
+    kwloop = LoopSpec(
+        fall_through=lambda env, st, x: [("the member does not casefold-equal s", casefold(x) != casefold(sval(env["s"])))],
+        exit=lambda env, st: [("no reserved keyword casefold-equals s", z3.Not(cf_in(RK, casefold(sval(env["s"])))))])
+    c = Contract(E + "PVLEncoder.needs_quotes", params={"s": "str"}, loops={0: kwloop}, exits=[
+        Exit("return", res="bool", post=lambda pre, post, a, r: [
+            ("quoting rule of the statement (C17/C01)", r.t == nq_pvl(sval(a["s"])))])], props=("C17", "C01"))
+    c.cases = [(cls, {"s": "str", "__cls__": cls}) for cls in ("PVLEncoder", "ODLEncoder", "PDSLabelEncoder", "ISISEncoder")]
+    out.append(c)
+
+    c = Contract(E + "ODLEncoder.needs_quotes", params={"s": "str"}, exits=[
+        Exit("return", res="bool", post=lambda pre, post, a, r: [
+            ("ODL: only an identifier that passes the PVL rule is written bare", r.t == nq("ODLEncoder", sval(a["s"])))])],
+        props=("C17", "C01", "C12"))
+    c.cases = [(cls, {"s": "str", "__cls__": cls}) for cls in ("ODLEncoder", "PDSLabelEncoder")]
+    out.append(c)
+
+    c = Contract(E + "PVLEncoder.encode_string", params={"value": "pyval"}, exits=[
+        Exit("return", res="str", when=lambda pre, a: z3.Not(pvl_string_raises(pre, a)), post=pvl_string_post(None)),
+        Exit("ValueError", when=pvl_string_raises)], props=("C17", "C01"))
+    c.cases = [(cls, {"value": "pyval", "__cls__": cls}) for cls in ("PVLEncoder", "ODLEncoder", "PDSLabelEncoder", "ISISEncoder")]
+    out.append(c)
+
+    feloop = LoopSpec(
+        fall_through=lambda env, st, x: [("the format effector is not in the text", z3.Not(sub_in(x, sval(env["value"]))))],
+        exit=lambda env, st: [("no format effector in the text", z3.Not(sub_any(FE, sval(env["value"]))))])
+    c = Contract(E + "ODLEncoder.is_symbol", params={"value": "str"}, loops={0: feloop}, exits=[
+        Exit("return", res="truthy", post=lambda pre, post, a, r: [
+            ("truthy exactly for a symbol string: no apostrophe, no format effector, short enough to stay on one line, "
+             "printable, not empty", r.t == sym(sval(a["value"])))])], props=("C12", "C01"))
+    c.cases = [(cls, {"value": "str", "__cls__": cls}) for cls in ("ODLEncoder", "PDSLabelEncoder")]
+    out.append(c)
+
+    def odl_string(cls, single):
+        def raises(pre, a):
+            s = text(a["value"])
+            return z3.And(nq(cls, s), z3.Not(single(s)), sub_in(q1, s), sub_in(q2, s))
+
+        def post(pre, post_, a, r):
+            s = text(a["value"])
+            n = nq(cls, s)
+            return [("bare only when no quotes are needed", z3.Implies(z3.Not(n), r.t == s)),
+                    ("a symbol string is single-quoted", z3.Implies(z3.And(n, single(s)), r.t == quoted_with(s, APOS))),
+                    ("any other string is enclosed in the first quote character it does not contain",
+                     z3.Implies(z3.And(n, z3.Not(single(s))),
+                                z3.If(z3.Not(sub_in(q1, s)), r.t == quoted_with(s, q1), r.t == quoted_with(s, q2))))]
+        return [Exit("return", res="str", when=lambda pre, a: z3.Not(raises(pre, a)), post=post),
+                Exit("ValueError", when=raises)]
+
+    out.append(Contract(E + "ODLEncoder.encode_string", params={"value": "str"}, exits=odl_string("ODLEncoder", sym),
+                        props=("C12", "C01", "C17")))
+    out.append(Contract(E + "PDSLabelEncoder.encode_string", params={"value": "str"},
+                        exits=odl_string("PDSLabelEncoder", lambda s: z3.And(sym(s), SSQ)), props=("C12", "C01", "C17")))
+
+    # value dispatch by Python type (C01 anchor): callee results are opaque constants
+    def callee(name, cls="PVLEncoder"):
+        k = Contract(E + cls + "." + name, params={"value": "pyval"}, exits=[
+            Exit("return", res=lambda ex: Z("str", z3.Const("result_of_" + name, S))), Exit("ValueError"), Exit("TypeError")])
+        k.assumed = True
+        k.note = "signature only: returns a str or raises ValueError/TypeError (text building: bounded drivers)"
+        return k
+    for nm in ("encode_set", "encode_sequence", "encode_datetype"):
+        out.append(callee(nm))
+    out += [callee("encode_set", "ODLEncoder"), callee("encode_sequence", "ODLEncoder"), callee("encode_set", "PDSLabelEncoder")]
+
+    def res(name):
+        return z3.Const("result_of_" + name, S)
+
+    def ty(a, name):
+        return type_is(a["value"].info["id"], type_id(name))
+
+    def dispatch_post(pre, post, a, r):
+        none = ty(a, "NoneType")
+        st = z3.Or(ty(a, "set"), ty(a, "frozenset"))
+        ls = ty(a, "list")
+        dt = z3.Or(ty(a, "datetime.datetime"), ty(a, "datetime.date"), ty(a, "datetime.time"))
+        bl = ty(a, "bool")
+        num = ty(a, "self.numeric_types")
+        earlier = []
+
+        def first(cond):
+            f = z3.And(cond, *[z3.Not(e) for e in earlier])
+            earlier.append(cond)
+            return f
+        return [
+            ("None is the none keyword", z3.Implies(first(none), r.t == gconst("none_keyword"))),
+            ("sets go to encode_set", z3.Implies(first(st), r.t == res("encode_set"))),
+            ("lists go to encode_sequence", z3.Implies(first(ls), r.t == res("encode_sequence"))),
+            ("dates and times go to encode_datetype", z3.Implies(first(dt), r.t == res("encode_datetype"))),
+            ("a bool is a keyword, never the text of a number (bool is an int)",
+             z3.Implies(first(bl), z3.Or(r.t == gconst("true_keyword"), r.t == gconst("false_keyword")))),
+            ("numbers are written by str()", z3.Implies(first(num), r.t == str_of(a["value"].info["id"]))),
+        ]
+    c = Contract(E + "PVLEncoder.encode_simple_value", params={"value": "pyval"}, exits=[
+        Exit("return", res="str", post=dispatch_post), Exit("ValueError"), Exit("TypeError")], props=("C01", "C18"))
+    c.cases = [(cls, {"value": "pyval", "__cls__": cls}) for cls in ("PVLEncoder", "ODLEncoder", "PDSLabelEncoder", "ISISEncoder")]
+    out.append(c)
+    return out
